@@ -235,6 +235,24 @@ class Exporter:
             return self.codeblock(node)
         if isinstance(node, N.Schedule):
             return {"k": "block", "body": self.body(node)}
+        if isinstance(node, N.ACCDataDirective):
+            def names(cls):
+                return [r.symbol.name.lower() for c in node.clauses
+                        if type(c).__name__ == cls for r in c.children]
+            for c in node.clauses:
+                if type(c).__name__ not in ("ACCCopyInClause", "ACCCopyOutClause",
+                                            "ACCCopyClause"):
+                    raise Unsupported("clause " + type(c).__name__)
+                for r in c.children:
+                    if type(r).__name__ != "Reference":
+                        raise Unsupported("data clause entry " + type(r).__name__)
+            return {"k": "accdata", "copyin": names("ACCCopyInClause"),
+                    "copyout": names("ACCCopyOutClause"), "copy": names("ACCCopyClause"),
+                    "body": self.body(node.dir_body)}
+        if isinstance(node, (N.ACCKernelsDirective, N.ACCLoopDirective)):
+            # compute constructs are transparent: their body runs on the device copy
+            # established by the enclosing data region
+            return {"k": "block", "body": self.body(node.dir_body)}
         raise Unsupported(f"statement node {cname}")
 
     # arguments (0-based positions) an intrinsic subroutine defines, from the
